@@ -31,6 +31,15 @@ Proof.
   destruct i; cbn in *; [inversion H; auto | apply IH; exact H].
 Qed.
 
+Lemma sem_args_eqb' a b : Sem.args_eqb a b = Enum.args_eqb a b.
+Proof.
+  assert (Hrow : forall x y : list (option nat), list_eqb cell_eqb x y = olist_eqb x y).
+  { induction x as [|u x IHx]; intros [|v y]; cbn [list_eqb olist_eqb]; try reflexivity.
+    rewrite IHx. f_equal. }
+  unfold Sem.args_eqb. revert b. induction a as [|x a IH]; intros [|y b]; cbn [list_eqb Enum.args_eqb]; try reflexivity.
+  rewrite IH, Hrow. reflexivity.
+Qed.
+
 Section F0S.
 Variable fb : flat.
 Hypothesis HF : frag2 fb = true.
@@ -59,8 +68,9 @@ Proof.
   unfold code_sem, CodeSem.code_sem. cbn [s_factors]. rewrite map_length, combine_length, seq_length. apply Nat.min_id.
 Qed.
 
-Lemma f0_sem_factor f fd : nth_error (s_factors S0) f = Some fd ->
-  f < n /\ f_nlevels fd = nlevels fb f /\ f_sustain fd = 1 /\ f_derived fd = None.
+(** a factor of the reference semantics is the coded factor of the design *)
+Lemma f0_sem_factor_at f fd : nth_error (s_factors S0) f = Some fd ->
+  f < n /\ exists d, factor_at fb f = Some d /\ fd = CodeSem.code_factor fb f d.
 Proof.
   unfold code_sem, CodeSem.code_sem. cbn [s_factors]. intros H.
   rewrite nth_error_map in H. destruct (nth_error (combine (seq 0 n) (fl_design fb)) f) as [[g d]|] eqn:E; [|discriminate].
@@ -71,10 +81,91 @@ Proof.
   assert (Hg : g = f /\ nth_error (fl_design fb) f = Some d).
   { apply nth_error_combine in E. destruct E as [E1 E2]. split; [|exact E2].
     apply nth_error_nth with (d := 0) in E1. rewrite seq_nth in E1 by exact Hf. lia. }
-  destruct Hg as [-> Hd]. split; [exact Hf|]. unfold CodeSem.code_factor. cbn [f_nlevels f_sustain f_derived fst snd].
-  split; [unfold nlevels, factor_at; rewrite Hd; reflexivity|]. split; [apply f0_sustain_of|].
-  apply nth_error_In in Hd. apply (f0_basic fb (f0_unpack fb HF)) in Hd. destruct Hd as [Hw _]. rewrite Hw. reflexivity.
+  destruct Hg as [-> Hd]. split; [exact Hf|]. exists d. split; [exact Hd | reflexivity].
 Qed.
+
+Lemma f0_sem_factor_some f : f < n -> exists fd, nth_error (s_factors S0) f = Some fd.
+Proof.
+  intros Hf. destruct (nth_error (s_factors S0) f) as [fd|] eqn:E; [exists fd; reflexivity|].
+  apply nth_error_None in E. rewrite f0_sem_factors_length in E. lia.
+Qed.
+
+(** the factors of [act_design] are plain *)
+Lemma f0_sem_factor f fd : In f (fl_act fb) -> nth_error (s_factors S0) f = Some fd ->
+  f < n /\ f_nlevels fd = nlevels fb f /\ f_sustain fd = 1 /\ f_derived fd = None.
+Proof.
+  intros Hact H. destruct (f0_sem_factor_at f fd H) as (Hf & d & Hd & ->). split; [exact Hf|].
+  unfold CodeSem.code_factor. cbn [f_nlevels f_sustain f_derived].
+  split; [unfold nlevels; rewrite Hd; reflexivity|]. split; [apply f0_sustain_of|].
+  destruct (f0_basic fb (f0_unpack fb HF) f d Hact Hd) as [Hw _]. rewrite Hw. reflexivity.
+Qed.
+
+(** the other factors are within-trial derived factors that read factors of [act_design] *)
+Lemma f0_sem_implied f fd : ~ In f (fl_act fb) -> nth_error (s_factors S0) f = Some fd ->
+  exists d w, factor_at fb f = Some d /\ ff_window d = Some w /\ f_nlevels fd = nlevels fb f /\ f_sustain fd = 1 /\
+    f_derived fd = Some {| w_deps := win_deps w; w_width := 1; w_stride := 1; w_start := 0;
+                            w_table := map lv_accepts (ff_levels d) |} /\
+    (forall x, In x (win_deps w) -> In x (fl_act fb)) /\ tables_exact fb f w = true.
+Proof.
+  intros Hact H. destruct (f0_sem_factor_at f fd H) as (Hf & d & Hd & ->).
+  pose proof (f0_implied fb (f0_unpack fb HF) f d Hact Hd) as Hi. unfold implied_fd in Hi.
+  destruct (ff_window d) as [w|] eqn:Ew; [|discriminate].
+  apply andb_prop in Hi. destruct Hi as [Hi Hex]. apply andb_prop in Hi. destruct Hi as [Hi Hdeps].
+  apply andb_prop in Hi. destruct Hi as [Hi Hst]. apply andb_prop in Hi. destruct Hi as [Hi Hsd].
+  apply andb_prop in Hi. destruct Hi as [_ Hwd].
+  apply Nat.eqb_eq in Hst. apply Nat.eqb_eq in Hsd. apply Nat.eqb_eq in Hwd.
+  exists d, w. split; [exact Hd|]. split; [exact Ew|]. unfold CodeSem.code_factor. cbn [f_nlevels f_sustain f_derived].
+  split; [unfold nlevels; rewrite Hd; reflexivity|]. split; [apply f0_sustain_of|]. rewrite Ew, Hst, Hsd, Hwd.
+  split; [reflexivity|]. split; [|exact Hex]. intros x Hx. rewrite forallb_forall in Hdeps. apply (isact_In fb HF). apply Hdeps. exact Hx.
+Qed.
+
+(** in a trial in which the factors an implied factor reads all carry a level, exactly one of its levels is accepted *)
+Lemma f0_implied_exact f fd (s0 : tseq) t : ~ In f (fl_act fb) -> nth_error (s_factors S0) f = Some fd ->
+  (forall x, In x (fl_act fb) -> exists l, get_cell s0 x t = Some l /\ l < nlevels fb x) ->
+  exists dw l0, f_derived fd = Some dw /\ w_width dw = 1 /\ w_stride dw = 1 /\ w_start dw = 0 /\ f_sustain fd = 1 /\
+    (forall x, In x (w_deps dw) -> In x (fl_act fb)) /\
+    l0 < f_nlevels fd /\ Sem.accepts dw l0 (window_args s0 fd dw t) = true /\
+    forall l, l < f_nlevels fd -> Sem.accepts dw l (window_args s0 fd dw t) = true -> l = l0.
+Proof.
+  intros Hact Hfd Hcells.
+  destruct (f0_sem_implied f fd Hact Hfd) as (d & w & Hd & Hw & Hnl & Hsu & Hder & Hdeps & Hex).
+  set (dw := {| w_deps := win_deps w; w_width := 1; w_stride := 1; w_start := 0; w_table := map lv_accepts (ff_levels d) |}) in *.
+  assert (Hwa : window_args s0 fd dw t = map (fun x => [get_cell s0 x t]) (win_deps w)).
+  { unfold window_args. rewrite Hsu. cbn [w_width w_deps dw]. rewrite Nat.div_1_r, Nat.mul_1_r.
+    cbn [seq map Nat.sub Nat.mul Nat.leb]. apply map_ext. intros x. rewrite Nat.sub_0_r. reflexivity. }
+  assert (Hargs : exists args, map (fun x => [get_cell s0 x t]) (win_deps w) = map (fun a => [Some a]) args /\
+                               In args (Enum.product (map (all_levels fb) (win_deps w)))).
+  { clear - Hdeps Hcells. induction (win_deps w) as [|x xs IH].
+    - exists []. split; [reflexivity | left; reflexivity].
+    - destruct IH as (args & E & Hin); [intros y Hy; apply Hdeps; right; exact Hy|].
+      destruct (Hcells x (Hdeps x (or_introl eq_refl))) as (l & El & Hl).
+      exists (l :: args). cbn [map]. rewrite El, E. split; [reflexivity|].
+      cbn [Enum.product]. apply in_flat_map. exists l. split; [unfold all_levels; apply in_seq; lia|].
+      apply in_map. exact Hin. }
+  destruct Hargs as (args & Eargs & Hin).
+  unfold tables_exact in Hex. rewrite forallb_forall in Hex. specialize (Hex args Hin). apply Nat.eqb_eq in Hex.
+  assert (Hacc : forall l, Sem.accepts dw l (window_args s0 fd dw t) = predicate fb f l (map (fun a => [Some a]) args)).
+  { intros l. rewrite Hwa, Eargs. unfold Sem.accepts, predicate, level_accepts, levels_of. cbn [w_table dw]. rewrite Hd.
+    assert (Etab : nth l (map lv_accepts (ff_levels d)) [] = match nth_error (ff_levels d) l with Some lv => lv_accepts lv | None => [] end).
+    { destruct (nth_error (ff_levels d) l) as [lv|] eqn:E.
+      - rewrite (nth_indep _ [] (lv_accepts lv)) by (rewrite map_length; apply nth_error_Some; congruence).
+        rewrite (map_nth lv_accepts). rewrite (nth_error_nth _ _ lv E). reflexivity.
+      - apply nth_overflow. rewrite map_length. apply nth_error_None. exact E. }
+    rewrite Etab. clear. induction (match nth_error (ff_levels d) l with Some lv => lv_accepts lv | None => [] end) as [|e es IH]; [reflexivity|].
+    cbn [existsb]. rewrite sem_args_eqb', IH. reflexivity. }
+  destruct (filter (fun l => predicate fb f l (map (fun a => [Some a]) args)) (all_levels fb f)) as [|l0 [|? ?]] eqn:Ef; try discriminate.
+  assert (Hl0 : In l0 (filter (fun l => predicate fb f l (map (fun a => [Some a]) args)) (all_levels fb f))) by (rewrite Ef; left; reflexivity).
+  apply filter_In in Hl0. destruct Hl0 as [Hl0 Hp0]. unfold all_levels in Hl0. apply in_seq in Hl0.
+  exists dw, l0. split; [exact Hder|]. split; [reflexivity|]. split; [reflexivity|]. split; [reflexivity|]. split; [exact Hsu|].
+  split; [exact Hdeps|]. split; [rewrite Hnl; lia|]. split; [rewrite Hacc; exact Hp0|].
+  intros l Hl Ha. rewrite Hacc in Ha.
+  assert (Hin' : In l (filter (fun l => predicate fb f l (map (fun a => [Some a]) args)) (all_levels fb f))).
+  { apply filter_In. split; [unfold all_levels; apply in_seq; rewrite Hnl in Hl; lia | exact Ha]. }
+  rewrite Ef in Hin'. destruct Hin' as [E | []]. symmetry. exact E.
+Qed.
+
+Lemma f0_sem_factor_old f fd : nth_error (s_factors S0) f = Some fd -> f < n.
+Proof. intros H. apply (f0_sem_factor_at f fd H). Qed.
 
 Lemma f0_sem_constraints : s_constraints S0 = flat_map (CodeSem.code_constraint fb) (fl_constraints fb).
 Proof. reflexivity. Qed.
@@ -85,25 +176,27 @@ Proof. unfold Compile.lookup_level, alookup. destruct (find (fun p => fst p =? f
 Lemma compile_excluded_eq di : Compile.is_excluded_combination fb di = Enum.is_excluded_combination fb di.
 Proof. reflexivity. Qed.
 
-Lemma f0_compile_not_excluded di : Compile.is_excluded_or_inconsistent fb di = Enum.is_excluded_combination fb di.
+Lemma f0_compile_not_excluded di : (forall p, In p di -> In (fst p) (fl_act fb)) ->
+  Compile.is_excluded_or_inconsistent fb di = Enum.is_excluded_combination fb di.
 Proof.
-  unfold Compile.is_excluded_or_inconsistent. rewrite compile_excluded_eq.
+  intros Hact. unfold Compile.is_excluded_or_inconsistent. rewrite compile_excluded_eq.
   destruct (Enum.is_excluded_combination fb di); [reflexivity|]. cbn [orb].
-  apply not_true_is_false. intros H. apply existsb_exists in H. destruct H as [p [_ H]].
+  apply not_true_is_false. intros H. apply existsb_exists in H. destruct H as [p [Hp H]].
   destruct (factor_at fb (fst p)) as [fd|] eqn:E; [|discriminate].
-  unfold factor_at in E. apply nth_error_In in E. apply (f0_basic fb (f0_unpack fb HF)) in E.
-  destruct E as [Ew _]. rewrite Ew in H. discriminate.
+  destruct (f0_basic fb (f0_unpack fb HF) (fst p) fd (Hact p Hp) E) as [Ew _]. rewrite Ew in H. discriminate.
 Qed.
 
-Lemma f0_compile_combos_of ci : Compile.trial_combinations_of fb ci = map (fun ls => combine ci ls) (allowed_combos fb ci).
+Lemma f0_compile_combos_of ci : In ci (fl_crossings fb) ->
+  Compile.trial_combinations_of fb ci = map (fun ls => combine ci ls) (allowed_combos fb ci).
 Proof.
-  unfold Compile.trial_combinations_of, Compile.crossing_combos. rewrite compile_product_eq.
+  intros Hci. unfold Compile.trial_combinations_of, Compile.crossing_combos. rewrite compile_product_eq.
   rewrite (product_pairs ci (fun f => seq 0 (nlevels fb f))). rewrite filter_map_comm. f_equal.
-  unfold allowed_combos. apply filter_ext. intros ls. rewrite f0_compile_not_excluded. reflexivity.
+  unfold allowed_combos. apply filter_ext. intros ls. rewrite f0_compile_not_excluded; [reflexivity|].
+  intros p Hp. apply (f0_cact fb (f0_unpack fb HF) ci _ Hci). eapply in_combine_fst. exact Hp.
 Qed.
 
 Lemma f0_compile_combos : Compile.trial_combinations_of fb c = map (fun ls => combine c ls) prod.
-Proof. apply f0_compile_combos_of. Qed.
+Proof. apply f0_compile_combos_of. rewrite (f0_crossings fb (f0_unpack fb HF)). left. reflexivity. Qed.
 
 Lemma f0_compile_level_weight f l : Compile.level_weight fb f l = level_weight_nat fb f l.
 Proof.
@@ -163,7 +256,7 @@ Lemma f0_code_crossing i ci : In ci (fl_crossings fb) ->
      c_mult := map (fun ls => (ls, combo_weight fb (combine ci ls) * cw_of fb ci)) (allowed_combos fb ci) |}.
 Proof.
   intros Hci. unfold CodeSem.code_crossing. rewrite (f0_crossing_weight_of ci Hci), f0_preamble_size.
-  f_equal. rewrite f0_compile_combos_of. rewrite map_map. apply map_ext_in. intros ls Hls.
+  f_equal. rewrite f0_compile_combos_of by exact Hci. rewrite map_map. apply map_ext_in. intros ls Hls.
   rewrite f0_compile_combination_weight, f0_sustain_of. rewrite Nat.mul_1_r.
   rewrite map_snd_combine; [reflexivity|]. unfold allowed_combos in Hls. apply filter_In in Hls. destruct Hls as [Hls _].
   rewrite (product_length_elem _ _ Hls). rewrite map_length. reflexivity.
